@@ -1808,7 +1808,7 @@ static void vi(void)
 		if (mod)
 			xcol = vi_off2col(xb, xrow, xoff);
 		/* scroll to the column the cursor is shown in, not the one j/k remember */
-		n = ren_cursor(lbuf_get(xb, xrow), xcol);
+		n = ren_cursor(lbuf_get(xb, xrow), vi_off2col(xb, xrow, xoff));
 		if (n >= xleft + xcols)
 			xleft = n - xcols / 2;
 		if (n < xleft)
@@ -1852,7 +1852,7 @@ static void vi(void)
 				vi_drawmsg();
 		}
 		term_pos(xrow - xtop, vi_pos(lbuf_get(xb, xrow),
-				ren_cursor(lbuf_get(xb, xrow), xcol)));
+				ren_cursor(lbuf_get(xb, xrow), vi_off2col(xb, xrow, xoff))));
 		term_commit();
 		lbuf_modified(xb);
 	}
